@@ -65,6 +65,20 @@ pub fn ensure(ctx: &Ctx, slot: &SlotCfg) {
         ),
     );
     ensure_slots(ctx, slot);
+    // cargo-fuzz crate (its own workspace; built with nightly only in the thorough tiers)
+    for (dir, esm) in [("fuzz", false), ("fuzz_esm", true)] {
+        write_if_changed(
+            &s.join(dir).join("Cargo.toml"),
+            &format!(
+                "[package]\nname = \"verif-{dir}\"\nversion = \"0.0.0\"\nedition = \"2021\"\npublish = false\n\n[package.metadata]\ncargo-fuzz = true\n\n[features]\nesm = []\ndefault = [{}]\n\n[dependencies]\nlibfuzzer-sys = \"0.4\"\nserde_json = \"1\"\nts-rs = {{ path = \"{repo}/ts-rs\", features = [{}] }}\noracles = {{ path = \"{verif}/engine/oracles\" }}\n\n[[bin]]\nname = \"import_path\"\npath = \"{verif}/engine/fuzz_targets/import_path.rs\"\ntest = false\ndoc = false\nbench = false\n\n[[bin]]\nname = \"merge\"\npath = \"{verif}/engine/fuzz_targets/merge.rs\"\ntest = false\ndoc = false\nbench = false\n\n[workspace]\n\n[profile.release]\ndebug = 0\n",
+                if esm { "\"esm\"" } else { "" },
+                if esm { "\"import-esm\"" } else { "" }
+            ),
+        );
+        if !s.join(dir).join("Cargo.lock").exists() {
+            std::fs::copy(ctx.repo.join("Cargo.lock"), s.join(dir).join("Cargo.lock")).ok();
+        }
+    }
 }
 
 /// serde_derive's own case conversion table (the C09 oracle), from the cargo registry
@@ -176,4 +190,54 @@ pub fn build_harness(ctx: &Ctx, serde_compat: bool, no_warnings: bool) -> std::p
             err.chars().rev().take(1500).collect::<String>().chars().rev().collect::<String>()
         )),
     }
+}
+
+/// Run a libFuzzer campaign (cargo-fuzz, nightly) on one of the hook targets. Returns the
+/// violation json printed by the target, if any. `Err` = infrastructure trouble.
+pub fn run_fuzz(ctx: &Ctx, dir: &str, target: &str, runs: u64) -> Result<(Option<serde_json::Value>, u64), String> {
+    let fuzz_dir = ctx.subjects().join(dir);
+    let work = ctx.work.join(format!("fuzz-{dir}-{target}"));
+    std::fs::remove_dir_all(&work).ok();
+    let corpus = work.join("corpus");
+    std::fs::create_dir_all(&corpus).map_err(|e| e.to_string())?;
+    std::fs::create_dir_all(work.join("cwd/p/q")).map_err(|e| e.to_string())?;
+    // a few seed inputs: fixed byte patterns (the decoders accept anything)
+    for (i, pat) in [[0u8; 24], [0x55; 24], [0xA7; 24]].iter().enumerate() {
+        std::fs::write(corpus.join(format!("seed{i}")), pat).ok();
+    }
+    let mut cmd = Command::new("cargo");
+    cmd.current_dir(work.join("cwd/p/q"))
+        .args(["+nightly", "fuzz", "run", "--fuzz-dir"])
+        .arg(&fuzz_dir)
+        .arg(target)
+        .arg(&corpus)
+        .arg("--")
+        .arg(format!("-runs={runs}"))
+        .arg(format!("-seed={}", ctx.seed.max(1)))
+        .arg("-max_len=96")
+        .arg("-len_control=0")
+        .arg(format!("-artifact_prefix={}/", work.display()))
+        .env("CARGO_NET_OFFLINE", "true")
+        .env("RUSTFLAGS", "--cfg ts_rs_verif")
+        .env("TS_RS_VERIF_MACROS_INCLUDE", ctx.verif.join("engine/macros_include/mod.rs"));
+    let (ok, out, err) = run(&mut cmd);
+    let all = format!("{out}\n{err}");
+    let execs = all
+        .lines()
+        .rev()
+        .find_map(|l| l.strip_prefix("Done ").and_then(|r| r.split_whitespace().next()).and_then(|n| n.parse::<u64>().ok()))
+        .or_else(|| all.lines().rev().find_map(|l| l.strip_prefix("#").and_then(|r| r.split_whitespace().next()).and_then(|n| n.parse::<u64>().ok())))
+        .unwrap_or(0);
+    if let Some(line) = all.lines().find(|l| l.contains("VERIF-FUZZ-VIOLATION ")) {
+        let j = line.split("VERIF-FUZZ-VIOLATION ").nth(1).unwrap_or("{}");
+        let v = serde_json::from_str(j).unwrap_or_else(|_| serde_json::json!({"signature": "fuzz-violation", "message": line}));
+        return Ok((Some(v), execs));
+    }
+    if !ok {
+        if all.contains("panicked at") || all.contains("ERROR: libFuzzer: deadly signal") {
+            return Ok((Some(serde_json::json!({"signature": "fuzz-crash", "message": all.chars().rev().take(2000).collect::<String>().chars().rev().collect::<String>()})), execs));
+        }
+        return Err(all.chars().rev().take(2000).collect::<String>().chars().rev().collect::<String>());
+    }
+    Ok((None, execs))
 }
